@@ -1,3 +1,4 @@
 import Cgm.Lemmas.AuditCmd
 import Cgm.Props.C07
+import Cgm.Props.C07b
 #audit_namespace Cg.C07
